@@ -350,6 +350,17 @@ class SeqAddItem(SeqEdit):
                     conforms(x, item_type(st, m)), seq_insert_rel(n0, e0, n1, e1, NONE, x, ins)))))]
 
 
+def seq_replaced_where(n0, e0, n1, e1, v, bi, T, MISS):
+    """transform_<item>: the element at the index given - or the first element equal to the value given - is replaced by a value of the
+    element type; the length and every other element stay"""
+    p, j = z3.Int("p!rw"), z3.Int("j!rw")
+    by_index = z3.If(bi == MISS, z3.Not(conforms(v, T)), b_of(bi))
+    replaced_at = lambda q: z3.And(q >= 0, q < n0, n1 == n0, conforms(z3.Select(e1, q), T),
+                                   z3.ForAll([j], z3.Implies(z3.And(j >= 0, j < n0, j != q), z3.Select(e1, j) == z3.Select(e0, j))))
+    first = lambda q: z3.And(py_eq(z3.Select(e0, q), v), z3.ForAll([j], z3.Implies(z3.And(j >= 0, j < q), z3.Not(py_eq(z3.Select(e0, j), v)))))
+    return z3.If(by_index, replaced_at(norm(as_index(v), n0)), z3.Exists([p], z3.And(replaced_at(p), first(p))))
+
+
 @register
 class SeqTransformItem(SeqEdit):
     """SequenceMutator.transform_item(value_or_index, transform, by_index, attr_transforms): the addressed element is
@@ -382,7 +393,9 @@ class SeqTransformItem(SeqEdit):
                 ("one-position", z3.Or(
                     # the target was found by value but nowhere in the list any more (not reachable: require_pre_existent) -
                     z3.Exists([p], z3.And(p >= 0, p < n0, n1 == n0, conforms(z3.Select(e1, p), item_type(st, m)),
-                                          z3.ForAll([j], z3.Implies(z3.And(j >= 0, j < n0, j != p), z3.Select(e1, j) == z3.Select(e0, j)))))))]
+                                          z3.ForAll([j], z3.Implies(z3.And(j >= 0, j < n0, j != p), z3.Select(e1, j) == z3.Select(e0, j))))))),
+                # which position: the index given, or the first element equal to the value given
+                ("where", seq_replaced_where(n0, e0, n1, e1, v, eng.to_val(st, c.by_index), item_type(st, m), missing(c)))]
 
 
 @register
@@ -1102,8 +1115,7 @@ class CollHelper(Helper):
                 return z3.Exists([x, idx], z3.And(conforms(x, T), z3.Or(is_none(idx), is_index(idx)),
                                                   seq_insert_rel(n0, e0, n1, e1, idx, x, z3.BoolVal(False))))
             if self.op == "transform":
-                return z3.Exists([p], z3.And(p >= 0, p < n0, n1 == n0, conforms(z3.Select(e1, p), T),
-                                             z3.ForAll([j], z3.Implies(z3.And(j >= 0, j < n0, j != p), z3.Select(e1, j) == z3.Select(e0, j)))))
+                return seq_replaced_where(n0, e0, n1, e1, g("_value_or_index"), g("_by_index"), T, MISS)
             v, bi = g("_value_or_index"), g("_by_index")
             by_index = z3.If(bi == MISS, z3.Not(conforms(v, T)), b_of(bi))
             removed_at = lambda q: z3.And(q >= 0, q < n0, n1 == n0 - 1,
